@@ -382,6 +382,18 @@ Proof.
   intros jparse s Hs. unfold p_parse_ident. rewrite Hs. vm_compute. reflexivity.
 Qed.
 
+(* K5: the same probe against a version-1 generic token whose free-form data holds an application's own "version"
+   that is not an integer: the version-1 schema reads the payload, the version-2 decoder's probe does not *)
+Definition k5_payload : json :=
+  JObj [("iss", JStr "I"); ("sub", JStr "s"); ("type", JStr "generic"); ("nats", JObj [("version", JStr "1.4.2"); ("k", JStr "v")])].
+Lemma k5_refuted :
+  (exists d, dec sch1_generic k5_payload (zero_val sch1_generic) = Some d) /\
+  forall (jparse : string -> option json) (s : string), jparse s = Some k5_payload -> p_parse_ident jparse s = None.
+Proof.
+  split; [eexists; vm_compute; reflexivity|].
+  intros jparse s Hs. unfold p_parse_ident. rewrite Hs. vm_compute. reflexivity.
+Qed.
+
 (* ====================================================================== *)
 (* generic claims: Encode then Decode, given that the kind/version probe    *)
 (* reads the payload (the condition K4 is about)                           *)
